@@ -218,7 +218,7 @@ def shard(ctx, payload):
             run_batch('format', args, lambda a: isinstance(a[0], float) and (a[0] % 60 > 59.99 or 0 < a[0] - math.floor(a[0]) < 1e-4))
         elif what == 'parse':
             from checks.c06 import gen_structured
-            texts = [gen_structured(rng) for _ in range(payload[1])]
+            texts = [gen_structured(rng, literals=False) for _ in range(payload[1])]
             # fields of hundreds of digits (C06's overflow cases) are beyond every JavaScript number: not the shared domain
             texts = [t for t in texts if not re.search(r'\d{100,}', t)]
             texts = [t for t in texts if t.isascii()]
@@ -295,6 +295,11 @@ def shard(ctx, payload):
                         args.append((g, age, ev, mss(c).replace(':', '.')))
                         args.append((g, age, ev, mss(c)[:-1]))                       # m:ss.t (hand-timed)
                         args.append((g, age, ev, mss(c)[:-1].replace(':', '.')))     # Norwegian m.ss.t
+                        if c >= 360000:
+                            hh, rr = divmod(c, 360000)
+                            hm = '%d:%02d:%02d.%02d' % (hh, rr // 6000, (rr % 6000) // 100, rr % 100)
+                            args += [(g, age, ev, hm), (g, age, ev, hm.replace(':', '.')), (g, age, ev, hm[:-1]),
+                                     (g, age, ev, hm[:-1].replace(':', '.'))]       # h:mm:ss.xx, h.mm.ss.xx, h:mm:ss.t, h.mm.ss.t
                         if c % 100 == 0:
                             args.append((g, age, ev, mss(c)[:-3]))                   # m:ss
             ages = junior.tyrving_ages(params)
